@@ -152,7 +152,7 @@ def run(ctx, chk):
                        "%s:%d" % (f.file, f.line), fn=name, key="%s:ref:%d" % (name, k),
                        detail="" if ok else "%d increments; returns %r" % (len(incs), pa.ret))
             nA += 1
-    chk.floor("C04.contract", "operation paths", nA, 40)
+    chk.floor("C04.contract", "operation paths", nA, 25)
 
     # ---- refcount writers -----------------------------------------------------
     nw = 0
@@ -181,7 +181,7 @@ def run(ctx, chk):
                     ok = False
                 chk.ob("C04.refcount-writers", "store to refcount in %s" % f.name, ok, st.loc(), fn=f.name, key="rcw:" + f.name,
                        detail="" if ok else "reference count is set to something other than 1 (fresh item) or itself +- 1")
-    chk.floor("C04.refcount-writers", "stores to the refcount field", nw, 20)
+    chk.floor("C04.refcount-writers", "stores to the refcount field", nw, 10)
 
     # ---- (B) release ---------------------------------------------------------------
     check_release(chk, prog, eff, cache, ctors, off)
